@@ -23,6 +23,7 @@ type Profile struct {
 	MinIng         int
 	Svcs           []string // service names per namespace (default s1..s3)
 	SparseOK       bool     // focused worlds may be sparse
+	IngDeletePct   int      // share of the ingress ops that delete (default 20)
 	Sparse         bool     // one rule with one path per ingress: few incidental links between ingresses
 	TLS            bool
 	DefBackend     bool // spec.defaultBackend
@@ -377,11 +378,11 @@ func (g *G) drawTheme() {
 		g.theme, g.themePct = -1, 55
 		if g.chance("hastheme", 60) {
 			g.theme = 1 + g.intn("theme", 0, len(g.P.Bundles)-1)
-			if g.chance("focused", 40) {
+			if g.chance("focused", 50) {
 				// focused world: one namespace, nearly every ingress carries the feature
 				g.P.NS = g.P.NS[:1]
 				g.themePct = 90
-				if g.P.SparseOK && g.chance("sparse", 60) {
+				if g.P.SparseOK && g.chance("sparse", 70) {
 					// ... and the ingresses have few other links among them: own host, own service
 					g.P.Sparse = true
 					g.P.Hosts = []string{"h1.local", "h2.local", "h3.local", "h4.local", "h5.local", "h6.local"}
@@ -508,10 +509,20 @@ func (g *G) genOp(kinds []string) (world.Op, bool) {
 	case world.KIngress:
 		ex := g.existing(kind)
 		r := g.intn("ingop", 0, 9)
+		if g.P.IngDeletePct > 0 && len(ex) > 1 && g.chance("ingdelete", g.P.IngDeletePct) {
+			r = 9
+		}
 		switch {
 		case r < 3 || len(ex) == 0: // create
 			name := fmt.Sprintf("i%d", g.nextIngNum())
-			op = world.Op{Op: "create", Obj: g.genIngress(g.pick("ingns", g.P.NS), name, g.intn("created", 2, 6))}
+			// the API server stamps a new object with the current time: never older than what exists (ties are common)
+			created := 2
+			for _, o := range ex {
+				if o.Created > created {
+					created = o.Created
+				}
+			}
+			op = world.Op{Op: "create", Obj: g.genIngress(g.pick("ingns", g.P.NS), name, created+g.intn("createdplus", 0, 1))}
 		case r < 8: // update
 			cur := ex[g.intn("which", 0, len(ex)-1)]
 			op = world.Op{Op: "update", Obj: g.mutateIngress(cur)}
